@@ -460,7 +460,7 @@ func (c *FnCtx) loopHead(b *ssa.BasicBlock, li *loopInfo, ins []loopEdge) {
 	}
 	// local cells that the loop itself never writes keep their content across the havoc
 	if !c.discover {
-		for _, a := range c.localCells {
+		for _, a := range c.stillLocalCells() {
 			written := false
 			for blk := range li.body {
 				if c.cellWrites[blk][c.allocOf[a]] {
@@ -616,6 +616,10 @@ func (c *FnCtx) trClause(env *Env, cl Clause) (t string) {
 	defer func() {
 		if r := recover(); r != nil {
 			if se, ok := r.(specErr); ok {
+				if c.discover && strings.HasPrefix(se.msg, "lastret-unset") {
+					t = "true" // discovery pass: the callee's result type is learnt when its call is reached
+					return
+				}
 				panic(unsupported{fmt.Sprintf("%s:%d: %s", cl.File, cl.Line, se.msg)})
 			}
 			panic(r)
